@@ -144,7 +144,15 @@ CAMPAIGNS.update({
 
 
 CNTP = [[i, "plain"] for i in ("plain", "unicode", "case_ids", "numeric_ids")]
+PAIROPS = ["merge", "concat", "align_to", "partition", "collapse", "subsample", "filter", "sort_order", "transpose",
+           "update_ids", "add_metadata", "read"]
 CAMPAIGNS.update({
+    "coherence_pairs": model_campaign(
+        "coherence_pairs", palettes=IDONLY, heaps="mrg",
+        quick=[ex(ph(PAIROPS, False, "r", 10), ph(PAIROPS, False, "same", 3, "r"), ph(["probe"], recv="r")),
+               ex(ph(PAIROPS, False, "r", 10), ph(["merge", "concat", "align_to"], False, "q", 0, "r"), ph(["probe"], recv="q"))],
+        thorough=[ex(ph(PAIROPS, True, "r", 60), ph(PAIROPS, False, "same", 6, "r"), ph(["probe"], recv="r")),
+                  ex(ph(PAIROPS, False, "r"), ph(["merge", "concat", "align_to"], True, "q", 0, "r"), ph(["probe"], recv="q"))]),
     "merge_pairs": model_campaign(
         "merge_pairs", palettes=SUMP, heaps="mrg",
         quick=[ex(ph(["merge"], True, "r")),
@@ -175,14 +183,27 @@ CAMPAIGNS.update({
                   ex(ph(LAYOUT, pick=10), ph(LAYOUT, pick=4), ph(["subsample"], True, "r", 30))]),
 })
 
+CAMPAIGNS["err_profile"] = {
+    "name": "err_profile", "kind": "err", "judge": ["BiomErrTrace.tla", "BiomErrTrace.cfg"],
+    "cfgs": {"quick": [{"depth": 2, "nest": 3, "pick": [0, 0]},
+                       {"depth": 4, "nest": 3, "pick": [12, 8, 6, 5]},
+                       {"depth": 6, "nest": 3, "pick": [6, 4, 3, 3, 2, 2]}],
+             "thorough": [{"depth": 3, "nest": 3, "pick": [0, 0, 12]},
+                          {"depth": 5, "nest": 3, "pick": [20, 10, 6, 5, 4]},
+                          {"depth": 8, "nest": 3, "pick": [8, 4, 3, 3, 2, 2, 2, 2]}]}}
+
 PROPERTIES = {
+    "C20": {"level": "model_checking", "campaigns": [CAMPAIGNS["err_profile"]],
+            "assumptions": ["kinds obssize/sampsize cannot be tripped in isolation (the duplicate test is also true "
+                            "for every size mismatch and is evaluated first), so their reactions are not exercised"]},
     "C09": {"level": "model_checking", "campaigns": [CAMPAIGNS["merge_pairs"]], "assumptions": []},
     "C10": {"level": "model_checking", "campaigns": [CAMPAIGNS["concat_blocks"]], "assumptions": []},
     "C11": {"level": "model_checking", "campaigns": [CAMPAIGNS["partition_collapse"]], "assumptions": []},
     "C12": {"level": "model_checking", "campaigns": [CAMPAIGNS["subsample_counts"]], "assumptions": []},
     "C05": {
         "level": "model_checking",
-        "campaigns": [CAMPAIGNS["coherence_walks"], CAMPAIGNS["reads_full"]],
+        "campaigns": [CAMPAIGNS["coherence_walks"], CAMPAIGNS["reads_full"], CAMPAIGNS["partition_collapse"],
+                      CAMPAIGNS["coherence_pairs"]],
         "assumptions": ["copy.deepcopy, scipy toarray and numpy are trusted for the projection"],
     },
     "C07": {
@@ -220,7 +241,35 @@ PROPERTIES = {
 }
 
 
+def run_err_campaign(camp, tier, seed, wd):
+    import time
+    t0 = time.time()
+    behaviours, gstats = [], []
+    for i, cfg in enumerate(camp["cfgs"][tier]):
+        cfg = dict(cfg, salt=(seed * 17 + i) % 997)
+        b, st = P.generate(cfg, wd, module="MC_Err.tla", cfg="MC_Err.cfg", name="gen_%s_%d" % (camp["name"], i),
+                           envvar="ERR_CFG")
+        behaviours.extend(b)
+        gstats.append(st)
+    behaviours = P.dedup(behaviours)
+    stimuli = [{"id": k + 1, "steps": b["steps"], "pal": ["err", "plain"], "tag": "default-profile",
+                "init": {}, "judge": camp["judge"], "driver": "driver_err"} for k, b in enumerate(behaviours)]
+    t1 = time.time()
+    traces = P.replay(stimuli, wd, driver="driver_err")
+    t2 = time.time()
+    j = P.judge(traces, wd, module=camp["judge"][0], cfg=camp["judge"][1], name="tr_" + camp["name"])
+    print("  campaign %-28s behaviours=%d gen=%.1fs replay=%.1fs judge=%.1fs fails=%d"
+          % (camp["name"], len(behaviours), t1 - t0, t2 - t1, time.time() - t2, len(j["fails"])), flush=True)
+    summary = {"name": camp["name"], "behaviours_enumerated": len(behaviours), "behaviours_replayed": len(behaviours),
+               "sampled": False, "gen": gstats, "gen_states": sum(g["states"] for g in gstats),
+               "gen_transitions": sum(g["transitions"] for g in gstats), "traces": len(traces),
+               "judge_states": j["states"], "fails": len(j["fails"])}
+    return {"summary": summary, "stimuli": stimuli, "traces": traces, "judge": j}
+
+
 def run_campaign(camp, tier, seed, wd):
+    if camp.get("kind") == "err":
+        return run_err_campaign(camp, tier, seed, wd)
     rng = random.Random(seed * 1000003 + hash(camp["name"]) % 1000)
     import time
     t0 = time.time()
@@ -266,6 +315,6 @@ def run_campaign(camp, tier, seed, wd):
 def rejudge(stim, wd):
     stim = dict(stim)
     stim.setdefault("id", 1)
-    traces = P.replay([stim], wd, nproc=1)
+    traces = P.replay([stim], wd, nproc=1, driver=stim.get("driver", "driver"))
     jm = stim.get("judge", ["BiomTrace.tla", "BiomTrace.cfg"])
     return P.judge(traces, wd, module=jm[0], cfg=jm[1], njvm=1)
